@@ -346,32 +346,35 @@ func zzH_C04_jump() {
 		r.points[3] = uint16(1 + i%2) // two score levels: ties everywhere
 		all = append(all, r)
 	}
-	// partitions: contiguous thirds, each sorted with the matcher's own comparator
-	for l := 0; l < nl; l++ {
-		part := append([]Result{}, all[l*total/nl:(l+1)*total/nl]...)
-		for i := 1; i < len(part); i++ {
-			for j := i; j > 0 && !compareRanks(part[j-1], part[j], tac); j-- {
-				part[j-1], part[j] = part[j], part[j-1]
+	// partitions: contiguous thirds, each in the order the matcher's own comparator gives
+	// (built directly: lower score level first, ties by position, reversed under --tac)
+	order := func(from, to int) []Result {
+		out := make([]Result, 0, to-from)
+		for _, lvl := range []uint16{1, 2} {
+			if tac {
+				for i := to - 1; i >= from; i-- {
+					if all[i].points[3] == lvl {
+						out = append(out, all[i])
+					}
+				}
+			} else {
+				for i := from; i < to; i++ {
+					if all[i].points[3] == lvl {
+						out = append(out, all[i])
+					}
+				}
 			}
+		}
+		return out
+	}
+	for l := 0; l < nl; l++ {
+		part := order(l*total/nl, (l+1)*total/nl)
+		for i := 1; i < len(part); i++ {
+			zzv.Assume(compareRanks(part[i-1], part[i], tac))
 		}
 		lists[l] = part
 	}
-	ref := []Result{}
-	for _, lvl := range []uint16{1, 2} {
-		if tac {
-			for i := total - 1; i >= 0; i-- {
-				if all[i].points[3] == lvl {
-					ref = append(ref, all[i])
-				}
-			}
-		} else {
-			for i := 0; i < total; i++ {
-				if all[i].points[3] == lvl {
-					ref = append(ref, all[i])
-				}
-			}
-		}
-	}
+	ref := order(0, total)
 	mg := NewMerger(nil, lists, true, tac, revision{}, 0)
 	zzv.Reach("called")
 	var probes []int
